@@ -25,7 +25,12 @@ def test_and_set_rules(rep: Report, cl: ClassLocks, m, flag: str, effect_pred, e
     rep.require(writes, f"write of {flag} in {m.ref}")
     win_sites = []
     for w in writes:
-        ok = w.locked and has_guard(w.site.ctx, f"self.{flag}", False)
+        wn = w.site.stmt
+        raises = isinstance(wn, (ast.Assign, ast.AnnAssign)) and isinstance(wn.value, ast.Constant) and wn.value.value is True
+        rep.ob(f"{prefix}1-atomic-test-and-set", m, f"{short(w.site.stmt)}: the winner raises the flag", raises,
+               f"the winning path writes `{short(w.site.stmt)}` instead of setting self.{flag} = True: the next dispose() finds the flag "
+               f"unset again and runs the action a second time")
+        ok = raises and w.locked and has_guard(w.site.ctx, f"self.{flag}", False)
         test_locked = True
         # the `if not self.flag` test itself must be evaluated under the lock
         for a in acc:
